@@ -175,6 +175,10 @@
 #define M_VAL_QP_(m, F) (F((m).s.hasQP) ? (bg_size)F(*(m).valQP) : (bg_size)0)
 #define M_POS(m) ((!(m).s.hasPQ || *(m).valPQ >= 1) && (!(m).s.hasQP || *(m).valQP >= 1))
 #define M_RANGE(m) 1
+/* A-REAL ranges: weights below 2^40, totals below 2^60 in magnitude (exact machine arithmetic) */
+#define W_RANGE(w) 1
+#define W_TOTAL_RANGE(t) 1
+#define W_CELLS_RANGE(m) 1
 /* DM / DW : struct { struct LDG_<L> base; total } */
 #define X_B(g) (&(g)->base)
 #define X_PRE_D(g)                                                            \
